@@ -243,6 +243,19 @@ func (vr *variableResolver) String() string {
 	return strings.Join(parts, ".")
 }
 
+// hashable reports whether v can be used as a map key: a slice, map or function (also inside an
+// array, struct or interface) is assignable to an interface-typed key but cannot be hashed, so it
+// is the key of no entry.
+func hashable(v reflect.Value) (ok bool) {
+	defer func() {
+		if recover() != nil {
+			ok = false
+		}
+	}()
+	reflect.MakeMap(reflect.MapOf(v.Type(), reflect.TypeOf(false))).MapIndex(v)
+	return true
+}
+
 func (vr *variableResolver) resolve(ctx *ExecutionContext) (*Value, error) {
 	var current reflect.Value
 	var isSafe bool
@@ -370,7 +383,7 @@ func (vr *variableResolver) resolve(ctx *ExecutionContext) (*Value, error) {
 						if sv.IsNil() {
 							return AsValue(nil), nil
 						}
-						if sv.val.Type().AssignableTo(current.Type().Key()) {
+						if sv.val.Type().AssignableTo(current.Type().Key()) && hashable(sv.val) {
 							current = current.MapIndex(sv.val)
 						} else {
 							return AsValue(nil), nil
